@@ -93,7 +93,28 @@ func Sanitize(c *core.Ctx, rule string, p *packages.Package) {
 					changed = false
 					ast.Inspect(lit.Body, func(x ast.Node) bool {
 						as, ok := x.(*ast.AssignStmt)
-						if !ok || len(as.Lhs) != len(as.Rhs) {
+						if !ok {
+							return true
+						}
+						// v, ok := s.Unapply() / v, ok := m[k]: v names a part of the input, ok is a flag
+						if len(as.Lhs) == 2 && len(as.Rhs) == 1 && as.Tok == token.DEFINE {
+							r := ast.Unparen(as.Rhs[0])
+							inner := r
+							if call, ok := r.(*ast.CallExpr); ok && len(call.Args) == 0 {
+								if sel, ok := ast.Unparen(call.Fun).(*ast.SelectorExpr); ok {
+									inner = sel.X
+								}
+							}
+							if root, _ := accessorPath(info, inner, roots); root != nil {
+								if o := objOf(info, as.Lhs[0]); o != nil && !roots[o] {
+									roots[o] = true
+									aliasDefs[as.Rhs[0]] = true
+									changed = true
+								}
+							}
+							return true
+						}
+						if len(as.Lhs) != len(as.Rhs) {
 							return true
 						}
 						for i, r := range as.Rhs {
